@@ -349,7 +349,7 @@ func (fx *FX) specVal(x *SX, env *SEnv, cur, old *State) Val {
 			}
 			srt := e.SortOf(et)
 			h := fx.sv(cur, "Elem!"+typeName(et), ArrS(SRef, ArrS(SInt, srt)))
-			return Val{T: Sel(Sel(h, App("sbase", base.T)), fmt.Sprintf("(+ (soff %s) %s)", base.T, idx.T)), S: srt, GT: et}
+			return Val{T: Sel(Sel(h, App("sbase", base.T)), fmt.Sprintf("(sidx %s %s)", base.T, idx.T)), S: srt, GT: et}
 		}
 		if base.GT != nil {
 			if mt, ok := base.GT.Underlying().(*types.Map); ok {
